@@ -757,7 +757,11 @@ func scenarioConcurrent(seed int64, idle, frame time.Duration) *verdict {
 						c.send(&hagallpb.EntityComponentUpdate{Type: hagallpb.MsgType_MSG_TYPE_ENTITY_COMPONENT_UPDATE, Timestamp: now(), EntityComponentTypeId: uint32(1 + r.Intn(3)), EntityId: eids[r.Intn(len(eids))], Data: []byte{2}})
 					}
 				case 7:
-					c.send(&hagallpb.CustomMessage{Type: hagallpb.MsgType_MSG_TYPE_CUSTOM_MESSAGE, Timestamp: now(), Body: []byte("hello")})
+					m := &hagallpb.CustomMessage{Type: hagallpb.MsgType_MSG_TYPE_CUSTOM_MESSAGE, Timestamp: now(), Body: []byte("hello")}
+					if r.Intn(2) == 0 { // addressed: goes through Session.BroadcastTo
+						m.ParticipantIds = []uint32{uint32(1 + r.Intn(8)), uint32(1 + r.Intn(8))}
+					}
+					c.send(m)
 				case 8:
 					if len(eids) > 0 {
 						c.send(&vikjapb.EntityActionRequest{Type: vikjapb.MsgType_MSG_TYPE_VIKJA_ENTITY_ACTION_REQUEST, Timestamp: now(), RequestId: rid(),
@@ -778,7 +782,7 @@ func scenarioConcurrent(seed int64, idle, frame time.Duration) *verdict {
 						eids = eids[1:]
 					}
 				default:
-					if r.Intn(6) == 0 { // switch session
+					if r.Intn(2) == 0 { // switch session: a leave and a join under the participant lock
 						mu.Lock()
 						sid := sids[r.Intn(len(sids))]
 						mu.Unlock()
